@@ -647,7 +647,7 @@ func TestC34_Machine(t *testing.T) {
 	}
 	tl := newTally()
 	rapid.Check(t, func(rt *rapid.T) {
-		site := sites[rapid.IntRange(0, len(sites)-1).Draw(rt, "list")]
+		site := sites[pickIndex(rt, len(sites), "list")]
 		cands := drawCands(rt, site, model.GenOpts{}, rapid.IntRange(2, 4).Draw(rt, "ncand"))
 		if len(cands) < 2 {
 			rt.Skip("fewer than two distinct candidate keys")
